@@ -59,6 +59,12 @@ EXTRACT ("C05", m33_fastMinor, "M33.fastMinor_01_12", { IN (Matrix33, a); c.outS
 EXTRACT ("C05", m33_fastMinorB, "M33.fastMinor_12_02", { IN (Matrix33, a); c.outS (a.fastMinor (1, 2, 0, 2)); })
 EXTRACT ("C05", m44_fastMinor, "M44.fastMinor_123_012", { IN (Matrix44, a); c.outS (a.fastMinor (1, 2, 3, 0, 1, 2)); })
 EXTRACT ("C05", m44_fastMinorB, "M44.fastMinor_013_123", { IN (Matrix44, a); c.outS (a.fastMinor (0, 1, 3, 1, 2, 3)); })
+// fastMinor at further index tuples: descending, repeated, r0 = 2 / c0 = 2, and the three other tuples
+// Matrix44::determinant calls (the body is index-generic; every tuple is additionally run on the real code by c05_residue)
+#define FASTMINOR33(r0, r1, c0, c1) EXTRACT ("C05", m33_fastMinor_##r0##r1##_##c0##c1, "M33.fastMinor_" #r0 #r1 "_" #c0 #c1, { IN (Matrix33, a); c.outS (a.fastMinor (r0, r1, c0, c1)); })
+#define FASTMINOR44(r0, r1, r2, c0, c1, c2) EXTRACT ("C05", m44_fastMinor_##r0##r1##r2##_##c0##c1##c2, "M44.fastMinor_" #r0 #r1 #r2 "_" #c0 #c1 #c2, { IN (Matrix44, a); c.outS (a.fastMinor (r0, r1, r2, c0, c1, c2)); })
+FASTMINOR33 (2, 1, 2, 0) FASTMINOR33 (0, 0, 1, 1) FASTMINOR33 (2, 0, 0, 2)
+FASTMINOR44 (3, 2, 1, 2, 1, 0) FASTMINOR44 (0, 0, 2, 1, 3, 3) FASTMINOR44 (0, 2, 3, 0, 1, 2) FASTMINOR44 (0, 1, 3, 0, 1, 2) FASTMINOR44 (0, 1, 2, 0, 1, 2)
 // aliasing: the compound spellings with the object itself as right operand
 EXTRACT ("C05", q_mulSelf, "Quat.mulAssignSelf", { IN (Quat, a); a *= a; c.out (a); })
 EXTRACT ("C05", m22_mulSelf, "M22.mulAssignSelf", { IN (Matrix22, a); a *= a; c.out (a); })
